@@ -35,6 +35,11 @@ const VerifDrive = "/ghost/drive.tar"
 var verifEnvCount int
 
 func VerifNewEnv(pipes config.PipeConfig, readCrypto, writeCrypto config.CryptoConfig) *VerifEnv {
+	return VerifNewEnvWith(pipes, readCrypto, writeCrypto, false)
+}
+
+// VerifNewEnvWith: overwrite is what `stfs operation archive --overwrite` hands to the tape manager.
+func VerifNewEnvWith(pipes config.PipeConfig, readCrypto, writeCrypto config.CryptoConfig, overwrite bool) *VerifEnv {
 	drive := VerifDrive
 	if verifEnvCount > 0 {
 		drive = VerifDrive + "." + strconv.Itoa(verifEnvCount)
@@ -43,7 +48,7 @@ func VerifNewEnv(pipes config.PipeConfig, readCrypto, writeCrypto config.CryptoC
 	e := &VerifEnv{Drive: drive, RS: pipes.RecordSize}
 	e.Tape = vm.NewTape(drive)
 	vm.GhostFS[drive] = e.Tape
-	e.TM = tape.NewTapeManager(drive, nil, pipes.RecordSize, false)
+	e.TM = tape.NewTapeManager(drive, nil, pipes.RecordSize, overwrite)
 	e.P = persisters.VerifNewPersister()
 	e.Metadata = config.MetadataConfig{Metadata: e.P}
 	e.Backend = config.BackendConfig{
